@@ -13,3 +13,15 @@ func VerifServeConn(conn net.Conn, opts ...Option) {
 	c := newConnection(conn, options.ActiveSafetyType, options.DataHandleFunc, options.FileEventerFunc())
 	c.run()
 }
+
+// VerifServer evaluates the options once, as New does, and returns a function that serves
+// one connection the way the accept loop of GoJT808.Run does (synchronously, on any net.Conn).
+// Several connections served by the same returned function share what connections of one
+// running server share.
+func VerifServer(opts ...Option) func(conn net.Conn) {
+	g := New(opts...)
+	return func(conn net.Conn) {
+		c := newConnection(conn, g.opts.ActiveSafetyType, g.opts.DataHandleFunc, g.opts.FileEventerFunc())
+		c.run()
+	}
+}
